@@ -261,6 +261,8 @@ func Universe(si *world.SchemaInfo, profile string) []Slot {
 			add(P(E("k1", "name", k), E("val")), "v1", "v2")
 			add(P(E("cons"), E("ml", "name", k), E("req")), "r1", "r2")
 			add(P(E("cons"), E("ml", "name", k), E("opt")), "o1", "o2")
+			add(P(E("cons"), E("ml", "name", k), E("msel")), "a", "b")
+			add(P(E("cons"), E("ml", "name", k), E("mref")), "v1", "v2")
 		}
 		add(P(E("cons"), E("ref")), "a", "b", "c")
 		add(P(E("cons"), E("refopt")), "a", "zz")
